@@ -22,6 +22,10 @@ CLAIMED['C18'] = dict(design='5 (C18), 2', note='trusted: MIRSE MIR semantics + 
 CLAIMED['C16'] = dict(design='5 (C16), 2', note='trusted: MIRSE MIR semantics + std models, grapheme model over Sigma_g; (max, context) are '
     'symbolic 64-bit values (below 16 for all bounded texts, unconstrained for texts of <= 1 character); oracle = tiling / containment / '
     'size / slice / byte-offset equations stated independently; overflow defect repaired by a fix commit (known_findings.json)')
+CLAIMED['C07'] = dict(design='5 (C07), 2', note='trusted: MIRSE MIR semantics + std models; rand modelled as every stream (weighted draw = any '
+    'index with positive weight), reproducibility checked as absence of draws from unseeded generators; sources are in-memory '
+    'ExactSizeIterators of every length vector within the bound; termination = step budget + bounded number of next() calls; hang '
+    'defect of the interleaved strategy repaired by a fix commit (known_findings.json)')
 NOT_YET = 'check not built yet in this session (work in progress, see DESIGN.md section 6 for the order)'
 NA = {}
 
